@@ -50,6 +50,7 @@ type GCase struct {
 	Budget    uint32    `json:"budget,omitempty"`
 	MapSeed   uint64    `json:"map_seed,omitempty"`
 	Race      bool      `json:"race,omitempty"`
+	Cold      bool      `json:"cold,omitempty"` // concurrent run first, references afterwards (cold package state)
 }
 
 type Job struct {
@@ -237,21 +238,27 @@ func runCase(t *testing.T, c GCase, keepLog bool) (out Outcome) {
 			return
 		}
 	}
-	// reference: each client alone, sequentially, native map order
 	want := make([]GenResult, len(c.Clients))
-	for i, cl := range c.Clients {
-		want[i] = solo(t, cl, 0, c.Race)
-	}
-	// map-order dimension: the same generation alone under a permuted order
-	if c.MapSeed != 0 {
+	reference := func() bool {
+		// reference: each client alone, sequentially, native map order
 		for i, cl := range c.Clients {
-			got := solo(t, cl, c.MapSeed, c.Race)
-			if got.String() != want[i].String() {
-				out.Class = "map_order"
-				out.Detail = fmt.Sprintf("text %s options [%s]: output depends on map iteration order\n  runtime order : %s\n  permuted order: %s", texts[cl.Text].Name, cl.optString(), want[i], got)
-				return
+			want[i] = solo(t, cl, 0, c.Race)
+		}
+		// map-order dimension: the same generation alone under a permuted order
+		if c.MapSeed != 0 {
+			for i, cl := range c.Clients {
+				got := solo(t, cl, c.MapSeed, c.Race)
+				if got.String() != want[i].String() {
+					out.Class = "map_order"
+					out.Detail = fmt.Sprintf("text %s options [%s]: output depends on map iteration order\n  runtime order : %s\n  permuted order: %s", texts[cl.Text].Name, cl.optString(), want[i], got)
+					return false
+				}
 			}
 		}
+		return true
+	}
+	if !c.Cold && !reference() {
+		return
 	}
 	got := make([]GenResult, len(c.Clients))
 	var res simrt.Result
@@ -272,9 +279,6 @@ func runCase(t *testing.T, c GCase, keepLog bool) (out Outcome) {
 		}
 		close(start)
 		wg.Wait()
-		for i := range got {
-			got[i].Stderr = want[i].Stderr // free-running clients share the process's stderr
-		}
 		out.Nontrivial = true
 	} else {
 		func() {
@@ -330,6 +334,14 @@ func runCase(t *testing.T, c GCase, keepLog bool) (out Outcome) {
 			}
 		}
 	}
+	if c.Cold && !reference() {
+		return
+	}
+	if c.Race {
+		for i := range got {
+			got[i].Stderr = want[i].Stderr // free-running clients share the process's stderr
+		}
+	}
 	for i, cl := range c.Clients {
 		if got[i].String() != want[i].String() {
 			out.Class = "schedule_dependent_output"
@@ -351,11 +363,11 @@ func genClient(r *simrt.SplitMix64) GClient {
 	return c
 }
 
-func genCase(seed uint64, i int, race bool) GCase {
+func genCase(seed uint64, i int, race bool, cold bool) GCase {
 	r := simrt.NewRNG(simrt.DeriveN(seed, "c09", i))
-	c := GCase{Run: i, Race: race}
+	c := GCase{Run: i, Race: race, Cold: cold}
 	k := 1
-	if i%2 == 1 || race {
+	if i%2 == 1 || race || cold {
 		k = 2 + r.Intn(3)
 	}
 	if race {
@@ -365,7 +377,10 @@ func genCase(seed uint64, i int, race bool) GCase {
 		c.Clients = append(c.Clients, genClient(r))
 	}
 	style := r.Intn(simrt.FillStyles)
-	param := []int{1, 2, 4, 12}[r.Intn(4)]
+	param := []int{1, 2, 4, 12, 60, 400}[r.Intn(6)]
+	if style == simrt.FillFew {
+		param = []int{1, 2, 3, 5, 8}[r.Intn(5)]
+	}
 	c.SchedTape = simrt.FillTape(r, 20000, style, param)
 	c.ActiveNum, c.ActiveDen = []int{1, 1, 3, 1}[r.Intn(4)], []int{1, 2, 4, 8}[r.Intn(4)]
 	if c.ActiveNum > c.ActiveDen {
@@ -451,7 +466,7 @@ func TestSim(t *testing.T) {
 		}
 	} else {
 		for i := job.From; i < job.To; i++ {
-			c := genCase(job.Seed, i, job.Race)
+			c := genCase(job.Seed, i, job.Race, i == job.From)
 			o := handle(c)
 			if len(res.Samples) < 2 && o.Nontrivial && o.Skipped == "" {
 				s := c
